@@ -1,5 +1,6 @@
 import Ubx.Proofs.Codec
 import Ubx.Model.Helpers
+import Ubx.Proofs.AttNames
 import Ubx.Generated.Tables
 /-!
 # C18 — scalar encodings and helper conversions are exact inverses over their domain
@@ -184,5 +185,26 @@ theorem C18_protocol_spec (hdr : List Byte) (b1 b2 : Byte) (rest : Bytes) :
       by_cases h3 : b1 = 0xd3 ∧ b2 &&& 0xfc = 0
       · simp only [h3, and_self, if_true]
       · simp only [h3, if_false]
+
+
+/-- **`att2idx` / `att2name` are consistent with the names the walk exposes**: for a base name without an underscore
+    and any nesting of group indices, `att2name` of the rendered name (`base_%02d_%02d…`) is the base and `att2idx` is
+    `0` / the index / the tuple of indices. (Base names that themselves contain an underscore — CFG-TXSLOT's `end_01` is
+    one — are outside the helpers' domain: `att2idx("end_01") = 1`.) -/
+theorem C18_att2idx_att2name (base idx : List Nat) (hb : ∀ c ∈ base, c ≠ 95) :
+    att2name (renderName base idx) = base ∧
+    att2idx (renderName base idx) =
+      (match idx with
+       | [] => .zero
+       | [i] => .one i
+       | i :: j :: rest => .many (i :: j :: rest)) :=
+  ⟨att2name_render base idx hb, att2idx_render base idx hb⟩
+
+/-- `svid_06`, `gsid_03_04`, `gnssId_103`, `tow`; and the out-of-domain `end_01` -/
+example : renderName [115, 118, 105, 100] [6] = [115, 118, 105, 100, 95, 48, 54] := by decide +kernel
+example : att2idx (renderName [103, 115, 105, 100] [3, 4]) = .many [3, 4] := by decide +kernel
+example : att2idx (renderName [103] [103]) = .one 103 := by decide +kernel
+example : att2idx [116, 111, 119] = .zero := by decide +kernel
+example : att2idx [101, 110, 100, 95, 48, 49] = .one 1 := by decide +kernel
 
 end Ubx
